@@ -92,3 +92,54 @@ Section CloseStreamZ.
     rewrite Ew2. change (k_tr cs) with (k_tr c1). rewrite Ew1. reflexivity.
   Qed.
 End CloseStreamZ.
+
+(* client-initiated direction on such a connection: the client has sent its Close and is closing (parser between two frames,
+   no message open); the server's Close -- never compressed -- followed by ANY bytes completes the handshake *)
+Section ClientCloseZ.
+  Variable cf : cfg.
+  Variable app : strategy.
+  Hypothesis app_benign : benign app.
+  Hypothesis no_ping_timeout : zpos (c_ping_timeout cf) = None.
+  Hypothesis no_close_timeout : zpos (c_close_timeout cf) = None.
+
+  Definition closing_idle_z (d : deflate_cfg) (c : conn) : Prop :=
+    k_closed c = false /\ k_closing c = true /\ k_deflate c = Some d /\ k_frames c = [] /\ at_boundary_z (k_ps c) false.
+
+  Theorem client_close_completed_z d c f lf code reason rest :
+    closing_idle_z d c ->
+    zframe f -> f_rsv1 f = false -> f_op f = OP_CLOSE -> f_fin f = true -> blen (f_payload f) <= 125 -> form_ok lf (blen (f_payload f)) = true ->
+    good_close (f_payload f) code reason ->
+    exists c', feedf cf app c (enc_frame f lf ++ rest) = (c', SOk) /\
+      msg_events (k_tr c') = EvClosed code reason :: msg_events (k_tr c) /\
+      k_closed c' = true /\ writes (k_tr c') = writes (k_tr c).
+  Proof.
+    intros (Hcl & Hcg & Hdf & Hfr & Hab) Hpf Hr1 Hop Hfin Hlen Hform Hgood.
+    assert (Hv : validate_err true (hdr_z f) (blen (f_payload f)) = false).
+    { unfold validate_err, hdr_z. cbn [h_r1 h_r2 h_r3 h_op h_fin]. rewrite Hop, Hfin.
+      replace (125 <? blen (f_payload f)) with false by (symmetry; apply N.ltb_ge; exact Hlen). reflexivity. }
+    destruct (pull_one_frame_z (k_ps c) false f lf rest Hab Hpf Hform Hv) as (s' & Hpull & Hab').
+    rewrite feedf_unfold by (rewrite Hab; unfold fp_ok, st_ok; cbn; lia). unfold feed_body. rewrite Hcl, Hpull.
+    set (cs := c <| k_ps := s' |>).
+    assert (Hvalid : (match code with Some n => invalid_close_code n | None => false end) = false).
+    { destruct Hgood as [(_ & -> & _)|(a & b & _ & _ & -> & Hc)]; [reflexivity|exact Hc]. }
+    assert (Hitem : on_item cf app cs (IFrame f) = on_message cf app cs (MClose code reason)).
+    { unfold on_item, stream_frame. rewrite Hop. change (is_control OP_CLOSE) with true. cbv iota.
+      rewrite (build_plain_hd cs f [] Hr1).
+      cbv zeta. rewrite payload_of_one', Hop. change (OP_CLOSE =? OP_BINARY) with false. change (OP_CLOSE =? OP_TEXT) with false.
+      change (OP_CLOSE =? OP_CLOSE) with true. cbv iota.
+      destruct Hgood as [(-> & -> & ->)|(a & b & -> & Hu8 & -> & Hc)]; [reflexivity|rewrite Hu8; reflexivity]. }
+    rewrite Hitem, (server_close_completes_handshake cf app cs code reason Hcl Hcg Hvalid).
+    unfold feed_yield, in_feed_yield. cbn [on_event].
+    destruct (deliver_benign app app_benign cs (EvClosed code reason)) as (c1 & E1 & (A1&A2&A3&A4&A5&A6&A7&A8) & M1).
+    pose proof (deliver_closing_writes app app_benign cs (EvClosed code reason) Hcg) as W1. rewrite E1 in W1. cbn [fst] in W1.
+    rewrite E1. cbv beta iota.
+    assert (Hcg1 : k_closing c1 = true) by (rewrite A3; exact Hcg).
+    destruct (regular_closing cf app app_benign no_ping_timeout no_close_timeout c1 Hcg1) as (R1 & (S1&S2&S3&S4&S5&S6&S7&S8) & R3 & R4).
+    destruct (regular cf app c1) as [c2 st2]. cbn [fst snd] in *. subst st2. cbv beta iota.
+    set (c3 := c2 <| k_closed := true |> <| k_closing := false |>).
+    exists c3. split.
+    { unfold feedf. cbn [feed]. change (k_closed c3) with true. reflexivity. }
+    change (k_tr c3) with (k_tr c2).
+    split; [rewrite R3, M1; reflexivity|]. split; [reflexivity|]. rewrite R4, W1. reflexivity.
+  Qed.
+End ClientCloseZ.
